@@ -185,7 +185,7 @@ def message(edition):
     return Obj('BufrMessage', {'edition': Obj('SectionParameter', {'value': edition, 'name': 'edition', 'nbits': 8})})
 
 
-def run_encoder_section(repo, edition, data_bits, start, declared, ignore_declared, lead_param=False):
+def run_encoder_section(repo, edition, data_bits, start, declared, ignore_declared, lead_param=False, coder_obj=None):
     fi = repo.method('Encoder', 'process_section')
     it = SecInterp(repo, 'Encoder', data_bits)
 
@@ -196,7 +196,7 @@ def run_encoder_section(repo, edition, data_bits, start, declared, ignore_declar
         ps += [param('section_length', 24, value=declared), param('reserved', 8, value=0),
                param('template_data', 0, 'template_data', value=Sym('TD'))]
         sec = SectionModel(ps, {'index': 4})
-        return {'self': Obj('Encoder', {'ignore_declared_length': ignore_declared}), 'bufr_message': message(edition),
+        return {'self': coder_obj if coder_obj is not None else Obj('Encoder', {'ignore_declared_length': ignore_declared}), 'bufr_message': message(edition),
                 'bit_writer': PosIO(start), 'section': sec}
     return fi, it.run_function(fi, mk, self_class='Encoder')
 
@@ -363,6 +363,23 @@ def rule_r3(repo, tier):
             if r is None or not r.ok or [e[1] for e in r.events if e[0] == 'set'] != [exact]:
                 rr.fail('Encoder.process_section:declared-zero', fi.where, 'a zero declared length is not replaced by the computed one (%s)' % (
                     [x.describe() for x in res]))
+    # an encoder created without options recomputes the lengths: a stale declared length (what a subset extract or an edited rendering
+    # carries) is replaced, not honoured
+    from sa.rules.c08 import new_coder
+    for edition in (3, 4):
+        for k, stale in ((8, 300), (13, 2), (0, 65536)):
+            exact = padded_size(edition, 32 + k) // 8
+            enc = new_coder(repo, SecInterp(repo, 'Encoder', k), 'Encoder')
+            if 'ignore_declared_length' not in enc.fields:
+                raise AnalysisError('Encoder.__init__ could not be folded to an object with ignore_declared_length')
+            fi, res = run_encoder_section(repo, edition, k, 104, stale, None, coder_obj=enc)
+            rr.instance('Encoder() with its default options, section declared %d octets with %d octets of content, edition %d' % (stale, exact, edition))
+            r = res[0] if len(res) == 1 else None
+            if r is None or not r.ok or [e[1] for e in r.events if e[0] == 'set'] != [exact] or r.value != exact * 8:
+                rr.fail('Encoder.__init__:default-recomputes', fi.where, 'an encoder created without options, given a section that declares %d octets and has %d octets of content: %s; '
+                        'the default is to recompute the lengths (set the length field to %d)' % (stale, exact, [x.describe() for x in res] if r is None or not r.ok else
+                                                                                                  'length field set to %s, section %s bits long' % ([e[1] for e in r.events if e[0] == 'set'], r.value), exact),
+                        witness={'declared': stale, 'actual': exact, 'edition': edition})
     # decoder: consumes exactly the declared extent
     fi = repo.method('Decoder', 'process_section')
     for edition, k in [(e, k) for e in (2, 3, 4) for k in (0, 5, 8, 19)]:
